@@ -207,9 +207,9 @@ def _extreme_project(rnd):
     """Magnitudes: one directory with 150-400 files (numbered: m2 / m10 / m100), a package chain 25-45 levels deep, a
     path component of 200 characters, one module imported by everybody, one file with 300 import statements."""
     files = {"__init__.py": "", "hub.py": "value = 1\n"}
-    n = rnd.randint(150, 400)
+    n = rnd.randint(150, 700)
     for i in range(n):
-        files[f"wide/m{i}.py"] = "import proj.hub\n" + (f"import proj.wide.m{rnd.randrange(n)}\n" if rnd.random() < 0.5 else "")
+        files[f"wide/m{i}.py"] = "import proj.hub\nimport json\n" + (f"import proj.wide.m{rnd.randrange(n)}\n" if rnd.random() < 0.7 else "")
     files["wide/__init__.py"] = ""
     depth = rnd.randint(25, 45)
     chain = "/".join(f"d{k}" for k in range(depth))
